@@ -182,7 +182,11 @@ func (it *Interp) leStore(s SliceV, n int, v Val) {
 		}
 		b.Lo, b.Hi = new(big.Int), big.NewInt(255)
 		if v.Sym != nil {
-			b.Sym = mkSym("byte", 8, big.NewInt(int64(j)), v.Sym)
+			if v.Sym.Op == "le" && len(v.Sym.Args) == n {
+				b.Sym = v.Sym.Args[j] // byte j of a little-endian composition is that byte
+			} else {
+				b.Sym = mkSym("byte", 8, big.NewInt(int64(j)), v.Sym)
+			}
 		}
 		o.Vals[s.Off+j] = b.norm()
 	}
@@ -297,6 +301,33 @@ func (it *Interp) call(f *frame, x *ssa.Call) AnyVal {
 			return it.leLoad(s, n, 8*n)
 		}
 		return Top(8*n, false)
+	case "crypto/subtle.ConstantTimeCopy":
+		// x[i] = y[i] when v == 1, unchanged when v == 0
+		if len(args) == 3 {
+			d, ok1 := args[1].(SliceV)
+			sv, ok2 := args[2].(SliceV)
+			if v, ok := args[0].(Val); ok && ok1 && ok2 && d.Len == sv.Len {
+				do, so := it.St.Objs[d.Obj], it.St.Objs[sv.Obj]
+				switch {
+				case v.IsConst() && v.Int64() == 1:
+					tmp := append([]Val{}, so.Vals[sv.Off:sv.Off+sv.Len]...)
+					copy(do.Vals[d.Off:d.Off+d.Len], tmp)
+				case v.IsConst() && v.Int64() == 0:
+				default:
+					for i := 0; i < d.Len; i++ {
+						do.Vals[d.Off+i] = Join(do.Vals[d.Off+i], so.Vals[sv.Off+i])
+					}
+				}
+				return nil
+			}
+			if ok1 {
+				do := it.St.Objs[d.Obj]
+				for i := 0; i < d.Len; i++ {
+					do.Vals[d.Off+i] = Top(do.W, do.Sg)
+				}
+			}
+		}
+		return nil
 	case "(encoding/binary.littleEndian).PutUint64", "(encoding/binary.littleEndian).PutUint32":
 		n := 8
 		if callee.Name() == "PutUint32" {
